@@ -644,18 +644,44 @@ func mapAggregateNestedTargets(
 	}
 
 	if target.filter.HasValue() {
-		for topKey, topCond := range target.filter.Value().Conditions {
-			switch cond := topCond.(type) {
-			case map[string]any:
-				for _, innerCond := range cond {
-					if _, isMap := innerCond.(map[string]any); isMap {
-						hostSelectRequest.Fields = append(hostSelectRequest.Fields, &request.Select{
-							Field: request.Field{
-								Name: topKey,
-							},
-						})
-						break
+		mapAggregateNestedFilterTargets(target.filter.Value().Conditions, hostSelectRequest)
+	}
+}
+
+// mapAggregateNestedFilterTargets adds the relations that the filter conditions reach through to the
+// host select. Compound operators are not relations, their inner conditions are searched instead.
+func mapAggregateNestedFilterTargets(
+	conditions map[string]any,
+	hostSelectRequest *request.Select,
+) {
+	for topKey, topCond := range conditions {
+		switch topKey {
+		case request.FilterOpNot:
+			if inner, ok := topCond.(map[string]any); ok {
+				mapAggregateNestedFilterTargets(inner, hostSelectRequest)
+			}
+			continue
+		case request.FilterOpAnd, request.FilterOpOr:
+			if list, ok := topCond.([]any); ok {
+				for _, item := range list {
+					if inner, ok := item.(map[string]any); ok {
+						mapAggregateNestedFilterTargets(inner, hostSelectRequest)
 					}
+				}
+			}
+			continue
+		}
+
+		switch cond := topCond.(type) {
+		case map[string]any:
+			for _, innerCond := range cond {
+				if _, isMap := innerCond.(map[string]any); isMap {
+					hostSelectRequest.Fields = append(hostSelectRequest.Fields, &request.Select{
+						Field: request.Field{
+							Name: topKey,
+						},
+					})
+					break
 				}
 			}
 		}
